@@ -425,6 +425,23 @@ def _check_em(case):
                   'sample() modified the arrays it was given: parameters %r -> %r, model output %r -> %r' % (
                       sig_free.tolist(), a_sig.tolist(), ybar.tolist()[:6], a_yb.tolist()[:6]), kind='input_modified')
 
+    # the log-likelihood scores what the sampler draws: sampled series (the case's outputs, a decay curve followed far
+    # out, many large read-outs) are scored by the model itself against the documented log-density of the sampled values
+    with case.clause('em_scored_density:' + kind):
+        series = [('the outputs of the case', ybar),
+                  ('a decay curve at 121 time points', 10.0 * np.exp(-0.5 * np.linspace(0.0, 60.0, 121)) + (
+                      1e-3 if kind in ('mult', 'lognorm') else 0.0)),
+                  ('200 read-outs of 5000', np.full(200, 5000.0) * (1.0 + 1e-3 * np.arange(200)))]
+        for label, yb in series:
+            ys = np.array(em.sample(sig_free.copy(), yb.copy(), n_samples=1, seed=int(s['seed'])), dtype=float)[:, 0]
+            if kind == 'lognorm' and not np.all(ys > 0):
+                continue
+            want_s = float(np.real(ref.em_loglik(kind, sig, yb, ys)))
+            got_s = em.compute_log_likelihood(sig_free.copy(), yb.copy(), ys.copy())
+            if np.isfinite(want_s):
+                case.close(float(got_s), want_s, rtol=1e-9, what='log-likelihood of a sampled series (%s) vs the documented '
+                                                                 'log-density' % label)
+
     # the default call (n_samples not given) over several time points: every time point has its own noise term
     if n_t >= 2 and kind != 'cm':
         with case.clause('em_default_call:' + kind):
